@@ -6,6 +6,8 @@ EXTENDS SqliteTx, TLC, Json
 CONSTANT CancelBudget   \* export runs: at most this many transactions end by cancelling begin()
                         \* (uniform simulation would otherwise spend most steps on them); large = no limit
 
+CONSTANT ExportCuts     \* FALSE in export runs: the outcome of a commit cut in the middle cannot be forced
+
 VARIABLE hist   \* exported steps (history; hidden by VIEW in the exhaustive configs)
 
 mcvars == <<sem, queue, slot, dirty, db, order, expected, mine, pc, txn, rbSpawned, rbTaken, aborted, broken, hist>>
@@ -36,6 +38,7 @@ MCTakeCommit(w)     == TakeCommit(w)     /\ Step("TakeCommit", w, "", "")
 MCTakeRollback(w)   == TakeRollback(w)   /\ Step("TakeRollback", w, "", "")
 MCReleasePermit(w)  == ReleasePermit(w)  /\ Step("ReleasePermit", w, "", "")
 MCDropPermit(w, why) == DropPermit(w)    /\ Step("DropPermit", w, "", why)
+MCCutCommit(w, c)   == ExportCuts /\ CutCommit(w, c) /\ Step("CutCommit", w, "", IF c THEN "committed" ELSE "rolled back")
 MCRbTake(r)         == RbTake(r)         /\ Step("RbTake", r.w, "", "")
 MCRbRelease(r)      == RbRelease(r)      /\ Step("RbRelease", r.w, "", "")
 MCTerminated        == Terminated /\ UNCHANGED hist
@@ -44,6 +47,7 @@ MCWriterStep(w) ==
     \/ MCSetSlot(w) \/ MCTakeCommit(w) \/ MCTakeRollback(w) \/ MCReleasePermit(w)
     \/ \E k \in Keys : MCTxWrite(w, k)
     \/ \E why \in DropKinds : MCDropPermit(w, why)
+    \/ \E c \in BOOLEAN : MCCutCommit(w, c)
 MCRbStep == \E r \in rbSpawned \cup rbTaken : MCRbTake(r) \/ MCRbRelease(r)
 
 MCNext ==
